@@ -267,6 +267,14 @@ def _api_sequence(k, docs, allr, sb, R, scan_alone, PyMarkdownApi, PyMarkdownApi
         return sorted((f.line_number, f.column_number, f.rule_id, f.rule_name, f.rule_description, f.extra_error_information or "") for f in res.scan_failures)
 
     def call(a, op, d):
+        from vf import app as _app
+
+        try:
+            return _app.guarded(lambda: _call(a, op, d), 30.0)
+        except _app.ApiWatchdog:
+            return ("watchdog",)
+
+    def _call(a, op, d):
         """-> comparable result of one call (exceptions are results too)"""
         sb.clear_files()
         p = sb.write_bytes("x.md", docs[d].encode("utf-8"))
@@ -304,6 +312,9 @@ def _api_sequence(k, docs, allr, sb, R, scan_alone, PyMarkdownApi, PyMarkdownApi
         R.count("files_compared")
         R.count("api_calls_on_reused_object")
         R.see("api_ops", want[0])
+        if want[0] == "watchdog" or got[0] == "watchdog":
+            R.skip("api-watchdog")
+            continue
         if got != want:
             what = want[0] if want[0] == got[0] else f"{want[0]}->{got[0]}"
             v.add(f"api:{what}-differs-after:" + (trail[-1] if trail else "nothing"))
